@@ -44,6 +44,11 @@ def tasks(tier):
         cfg = {"threshold": thr, "window": W, "recovery": R, "class_thresholds": ct, "trip_on": ["T"]}
         out.append({"family": "identity", "cfg": cfg, "entry": "CircuitBreaker", "bound": d_id,
                     "max_out": mo, "weight": 5})
+    # a class with its own threshold of two or more (a failed probe re-opens whatever the counts)
+    for thr, W, R, ct in [(3, 4, 2, {"T": 2}), (1, 4, 2, {"T": 2}), (3, 2, 3, {"T": 3})]:
+        cfg = {"threshold": thr, "window": W, "recovery": R, "class_thresholds": ct, "trip_on": ["T"]}
+        out.append({"family": "identity", "cfg": cfg, "entry": "CircuitBreaker", "bound": d_id,
+                    "max_out": mo, "weight": 5})
     d_as = 7 if tier == "quick" else 9
     for thr, R, kinds in itertools.product([1, 2], [2, 3],
                                            [["call", "execute"], ["call0", "execute0", "abort0"],
